@@ -22,6 +22,13 @@ namespace c14
         uint64_t budget = 4096;
         uint64_t total = 0; // simulated time of the whole process
         bool armed = false;
+        // second clock: every basic block of the code under test executed in the current call (the kernels' translation units are compiled
+        // with -fsanitize-coverage=trace-pc, so this clock also runs in loops that carry no XSIMD_VERIF_LOOP_TICK)
+        uint64_t blocks = 0;
+        uint64_t block_budget = 1u << 18;
+        uint64_t blocks_total = 0;
+        bool block_exceeded = false;
+        const void* block_pc = nullptr;
         jmp_buf jb;
         Site sites[32];
         int n_sites = 0;
@@ -33,6 +40,7 @@ namespace c14
     const char* base_name(const char* path);
 }
 extern "C" void xsimd_verif_loop_tick(const char* file, int line);
+extern "C" void __sanitizer_cov_trace_pc();
 namespace c14
 {
 }
